@@ -84,7 +84,7 @@ def gen(seed, tier):
             times = sorted({int(t) for dep in P.deps_of(n) for t in orc[dep]["time"]})
             if kind in ("gap", "overlap"):
                 # a first chunk may start anywhere: only a later compute call can break continuity
-                fault["min_call"] = 1
+                fault["after_start"] = P.run_range(spec)[0]
             if not times:
                 continue
             fault["row_time"] = r.choice([times[0], times[len(times) // 2], times[-1]])
